@@ -1,6 +1,7 @@
 package world
 
 import (
+	"encoding/json"
 	"fmt"
 	"math"
 	"sort"
@@ -97,6 +98,12 @@ func milli(p float64) int {
 // view), nodes in the per-group order of w.Order, groups interleaved, pods shuffled.
 func (w *World) prepareSnapshot() {
 	all := w.listNodes()
+	// like an informer cache, the listers hand out the same object for as long as the API object is unchanged: whatever the
+	// code under test does to a listed object is still there at the next scan
+	seen := map[string]bool{}
+	for i, n := range all {
+		all[i] = w.cached("node:"+n.Name, n, seen).(*v1.Node)
+	}
 	byName := map[string]*v1.Node{}
 	var rest []*v1.Node
 	for _, n := range all {
@@ -112,7 +119,7 @@ func (w *World) prepareSnapshot() {
 	}
 	for _, lv := range w.LagView {
 		for id, n := range lv {
-			byName[id] = n.DeepCopy()
+			byName[id] = w.cached("lag:"+id, n.DeepCopy(), seen).(*v1.Node)
 		}
 	}
 	var perGroup [][]*v1.Node
@@ -147,7 +154,35 @@ func (w *World) prepareSnapshot() {
 		w.snapNodes = append(w.snapNodes[:at:at], append([]*v1.Node{n}, w.snapNodes[at:]...)...)
 	}
 	w.snapPods = w.listPods()
+	for i, p := range w.snapPods {
+		w.snapPods[i] = w.cached("pod:"+p.Namespace+"/"+p.Name, p, seen).(*v1.Pod)
+	}
+	for k := range w.objCache {
+		if !seen[k] {
+			delete(w.objCache, k)
+		}
+	}
 	w.Rng.Shuffle(len(w.snapPods), func(i, j int) { w.snapPods[i], w.snapPods[j] = w.snapPods[j], w.snapPods[i] })
+}
+
+type cachedObj struct {
+	obj  interface{}
+	hash string
+}
+
+// cached returns the object handed out before under this key if the fresh copy has the same content, else the fresh copy.
+func (w *World) cached(key string, fresh interface{}, seen map[string]bool) interface{} {
+	seen[key] = true
+	b, _ := json.Marshal(fresh)
+	h := string(b)
+	if w.objCache == nil {
+		w.objCache = map[string]cachedObj{}
+	}
+	if c, ok := w.objCache[key]; ok && c.hash == h {
+		return c.obj
+	}
+	w.objCache[key] = cachedObj{obj: fresh, hash: h}
+	return fresh
 }
 
 // ScanTimeout bounds one RunOnce (fleet paths wait on a 1 s ticker; a failed refresh sleeps 5 s twice).
